@@ -151,8 +151,106 @@ func loadProgram(repo, contractsDir string, patterns []string) (*Program, error)
 		}
 		p.fnByKey[fnKey(fn)] = fn
 	}
+	p.expandPkgCallPres()
 	p.errs = append(p.errs, p.CS.Errors...)
 	return p, nil
+}
+
+// expandPkgCallPres turns the package-wide caller-side rules into callpre clauses of the units of the calling
+// functions (creating "trusted callpre" units for callers that have none).
+func (p *Program) expandPkgCallPres() {
+	if len(p.CS.PkgCallPres) == 0 {
+		return
+	}
+	var keys []string
+	for k := range p.fnByKey {
+		keys = append(keys, k)
+	}
+	sort.Strings(keys)
+	for _, rule := range p.CS.PkgCallPres {
+		users := 0
+		for _, key := range keys {
+			fn := p.fnByKey[key]
+			if fn.Pkg == nil || fn.Pkg.Pkg.Path() != rule.Pkg {
+				continue
+			}
+			calls := false
+			for _, b := range fn.Blocks {
+				for _, in := range b.Instrs {
+					ci, ok := in.(ssa.CallInstruction)
+					if !ok {
+						continue
+					}
+					if callee := ci.Common().StaticCallee(); callee != nil && callee.Name() == rule.Clause.Raw {
+						calls = true
+					}
+				}
+			}
+			if !calls {
+				continue
+			}
+			skip := false
+			for _, x := range rule.Except {
+				if strings.TrimPrefix(key, rule.Pkg+".") == x {
+					skip = true
+				}
+			}
+			if skip {
+				continue
+			}
+			users++
+			c := p.CS.Funcs[key]
+			if c == nil {
+				c = &Contract{Pkg: rule.Pkg, FuncName: strings.TrimPrefix(key, rule.Pkg+"."), Mode: "int", Pos: rule.Clause.Line, Trusted: true, TrustedPart: true, Inline: true}
+				p.CS.Funcs[key] = c
+				p.CS.Order = append(p.CS.Order, key)
+				p.declPkgOf[key] = rule.Pkg
+				// assumed of the inputs of such a unit: the receiver is not nil and no interface-typed parameter is a
+				// typed nil (listed with the unit's assumptions in the evidence)
+				for i, prm := range fn.Params {
+					text := ""
+					if i == 0 && fn.Signature.Recv() != nil {
+						text = prm.Name() + " != nil"
+					} else if _, ok := prm.Type().Underlying().(*types.Interface); ok {
+						text = fmt.Sprintf("%s == nil || ref(%s) != nil", prm.Name(), prm.Name())
+					}
+					if text == "" || prm.Name() == "" || prm.Name() == "_" {
+						continue
+					}
+					if e, pp, err := parseCExpr(text); err == nil {
+						c.Assumes = append(c.Assumes, &Clause{Label: "params.wf", Text: pp, Raw: text, Expr: e, Line: rule.Clause.Line})
+					}
+				}
+			}
+			if c.Trusted && !c.TrustedPart {
+				p.CS.Errors = append(p.CS.Errors, fmt.Sprintf("%s: pkgcallpre %s: caller %s is a trusted unit (its body is not encoded)", rule.Clause.Line, rule.Clause.Raw, key))
+				continue
+			}
+			dup := false
+			for _, have := range c.CallPres {
+				if have.Raw == rule.Clause.Raw && have.Label == rule.Clause.Label {
+					dup = true
+				}
+			}
+			if !dup {
+				c.CallPres = append(c.CallPres, rule.Clause)
+			}
+			for _, pr := range rule.Props {
+				has := false
+				for _, q := range c.Props {
+					if q == pr {
+						has = true
+					}
+				}
+				if !has {
+					c.Props = append(c.Props, pr)
+				}
+			}
+		}
+		if users == 0 {
+			p.CS.Errors = append(p.CS.Errors, fmt.Sprintf("%s: pkgcallpre %s: no function of %s calls it", rule.Clause.Line, rule.Clause.Raw, rule.Pkg))
+		}
+	}
 }
 
 func (p *Program) contractFor(fn *ssa.Function) *Contract {
